@@ -57,6 +57,11 @@ fn item(sim: &mut Sim, d: u8) -> u8 {
 fn mask(sim: &mut Sim, d: u8) -> u64 {
     sim.choose("subset", 0, (1u64 << d) - 1)
 }
+/// Per-run knob: do the replicas start from generated (non-bottom, mutually different) values or
+/// from bottom? A start value is a durable, acknowledged update of its replica.
+pub fn nonbottom_start(sim: &mut Sim) -> bool {
+    sim.flip("nonbottom_start", 2, 3)
+}
 /// Two distinct items of `0..d` (d >= 2): array carriers are generated duplicate-free.
 fn two_items(sim: &mut Sim, d: u8) -> [u8; 2] {
     let a = item(sim, d);
@@ -85,7 +90,7 @@ pub enum SuMsg {
 }
 pub struct SetUnionGen {
     d: u8,
-    carriers: Vec<u64>,
+    inits: Vec<SuSt>,
 }
 fn su_items(st: &SuSt) -> Vec<u8> {
     let mut v: Vec<u8> = match st {
@@ -102,11 +107,17 @@ impl LatticeGen for SetUnionGen {
     type Msg = SuMsg;
     fn new(sim: &mut Sim, n: usize) -> Self {
         let d = dom(sim);
-        let carriers = (0..n).map(|_| sim.choose("carrier", 0, 1)).collect();
-        SetUnionGen { d, carriers }
+        let nb = nonbottom_start(sim);
+        let inits = (0..n)
+            .map(|_| {
+                let items = if nb { subset(mask(sim, d), d) } else { vec![] };
+                if sim.choose("carrier", 0, 1) == 0 { SuSt::H(SetUnion::new(items.into_iter().collect())) } else { SuSt::B(SetUnion::new(items.into_iter().collect())) }
+            })
+            .collect();
+        SetUnionGen { d, inits }
     }
     fn init(&self, i: usize) -> SuSt {
-        if self.carriers[i] == 0 { SuSt::H(Default::default()) } else { SuSt::B(Default::default()) }
+        self.inits[i].clone()
     }
     fn delta(&mut self, sim: &mut Sim, _i: usize, _st: &SuSt) -> SuMsg {
         let d = self.d;
@@ -241,7 +252,7 @@ macro_rules! map_union_gen {
         }
         pub struct $Gen {
             d: u8,
-            carriers: Vec<u64>,
+            inits: Vec<$St>,
         }
         impl LatticeGen for $Gen {
             const NAME: &'static str = $name;
@@ -249,11 +260,21 @@ macro_rules! map_union_gen {
             type Msg = $Msg;
             fn new(sim: &mut Sim, n: usize) -> Self {
                 let d = dom(sim);
-                let carriers = (0..n).map(|_| sim.choose("carrier", 0, 1)).collect();
-                $Gen { d, carriers }
+                let nb = nonbottom_start(sim);
+                let inits = (0..n)
+                    .map(|_| {
+                        let ks = if nb { subset(mask(sim, d), d) } else { vec![] };
+                        if sim.choose("carrier", 0, 1) == 0 {
+                            $St::H(MapUnion::new(ks.into_iter().map(|k| (k, <$VH>::from_code(sim.choose("val", 0, 15) as u8))).collect::<HashMap<_, _>>()))
+                        } else {
+                            $St::B(MapUnion::new(ks.into_iter().map(|k| (k, <$VB>::from_code(sim.choose("val", 0, 15) as u8))).collect::<BTreeMap<_, _>>()))
+                        }
+                    })
+                    .collect();
+                $Gen { d, inits }
             }
             fn init(&self, i: usize) -> $St {
-                if self.carriers[i] == 0 { $St::H(Default::default()) } else { $St::B(Default::default()) }
+                self.inits[i].clone()
             }
             fn delta(&mut self, sim: &mut Sim, _i: usize, _st: &$St) -> $Msg {
                 let d = self.d;
@@ -336,25 +357,33 @@ map_union_gen!(MapBotGen, MbSt, MbMsg, "map_union_withbot",
 
 pub trait Simple: Merge<Self> + LatticeFrom<Self> + Clone + PartialEq + PartialOrd + Canon {
     const NAME: &'static str;
-    /// the common initial value of all replicas of a run
-    fn initial(sim: &mut Sim, d: u8) -> Self;
+    /// must all replicas of a run start from the same value? (Point: only equal values merge)
+    const SHARED_START: bool = false;
+    /// a start value (`nb` false: the bottom, where the type has one)
+    fn initial(sim: &mut Sim, d: u8, nb: bool) -> Self;
     fn gen_delta(sim: &mut Sim, d: u8, cur: &Self) -> Self;
 }
 pub struct SimpleGen<T> {
     d: u8,
-    init: T,
+    inits: Vec<T>,
 }
 impl<T: Simple> LatticeGen for SimpleGen<T> {
     const NAME: &'static str = T::NAME;
     type State = T;
     type Msg = T;
-    fn new(sim: &mut Sim, _n: usize) -> Self {
+    fn new(sim: &mut Sim, n: usize) -> Self {
         let d = dom(sim);
-        let init = T::initial(sim, d);
-        SimpleGen { d, init }
+        let nb = nonbottom_start(sim);
+        let inits = if T::SHARED_START {
+            let v = T::initial(sim, d, nb);
+            (0..n).map(|_| v.clone()).collect()
+        } else {
+            (0..n).map(|_| T::initial(sim, d, nb)).collect()
+        };
+        SimpleGen { d, inits }
     }
-    fn init(&self, _i: usize) -> T {
-        self.init.clone()
+    fn init(&self, i: usize) -> T {
+        self.inits[i].clone()
     }
     fn delta(&mut self, sim: &mut Sim, _i: usize, st: &T) -> T {
         T::gen_delta(sim, self.d, st)
@@ -381,8 +410,8 @@ impl<T: Simple> LatticeGen for SimpleGen<T> {
 
 impl Simple for Max<u8> {
     const NAME: &'static str = "max";
-    fn initial(_sim: &mut Sim, _d: u8) -> Self {
-        Default::default()
+    fn initial(sim: &mut Sim, _d: u8, nb: bool) -> Self {
+        if nb { Max::new(sim.choose("val", 0, 6) as u8) } else { Default::default() }
     }
     fn gen_delta(sim: &mut Sim, _d: u8, _cur: &Self) -> Self {
         Max::new(sim.choose("val", 0, 6) as u8)
@@ -390,8 +419,8 @@ impl Simple for Max<u8> {
 }
 impl Simple for Min<u8> {
     const NAME: &'static str = "min";
-    fn initial(_sim: &mut Sim, _d: u8) -> Self {
-        Default::default()
+    fn initial(sim: &mut Sim, _d: u8, nb: bool) -> Self {
+        if nb { Min::new(sim.choose("val", 0, 6) as u8) } else { Default::default() }
     }
     fn gen_delta(sim: &mut Sim, _d: u8, _cur: &Self) -> Self {
         let v = sim.choose("val", 0, 6) as u8;
@@ -400,8 +429,9 @@ impl Simple for Min<u8> {
 }
 impl Simple for Conflict<u8> {
     const NAME: &'static str = "conflict";
-    fn initial(sim: &mut Sim, d: u8) -> Self {
-        Conflict::new(Some(item(sim, d)))
+    /// no bottom: the replicas start from the same scalar unless `nb` (then they may disagree)
+    fn initial(sim: &mut Sim, d: u8, nb: bool) -> Self {
+        Conflict::new(Some(if nb { item(sim, d) } else { 0 }))
     }
     fn gen_delta(sim: &mut Sim, d: u8, cur: &Self) -> Self {
         match sim.weighted("conflict_delta", &[6, 3, 1]) {
@@ -414,7 +444,8 @@ impl Simple for Conflict<u8> {
 }
 impl Simple for Point<u8, ()> {
     const NAME: &'static str = "point";
-    fn initial(sim: &mut Sim, d: u8) -> Self {
+    const SHARED_START: bool = true;
+    fn initial(sim: &mut Sim, d: u8, _nb: bool) -> Self {
         Point::new(item(sim, d))
     }
     /// documented precondition: only equal values are ever merged
@@ -424,7 +455,7 @@ impl Simple for Point<u8, ()> {
 }
 impl Simple for () {
     const NAME: &'static str = "unit";
-    fn initial(_sim: &mut Sim, _d: u8) -> Self {}
+    fn initial(_sim: &mut Sim, _d: u8, _nb: bool) -> Self {}
     fn gen_delta(_sim: &mut Sim, _d: u8, _cur: &Self) -> Self {}
 }
 
@@ -443,16 +474,22 @@ pub enum WbMsg {
 }
 pub struct WithBotGen {
     d: u8,
+    inits: Vec<WbSt>,
 }
 impl LatticeGen for WithBotGen {
     const NAME: &'static str = "with_bot";
     type State = WbSt;
     type Msg = WbMsg;
-    fn new(sim: &mut Sim, _n: usize) -> Self {
-        WithBotGen { d: dom(sim) }
+    fn new(sim: &mut Sim, n: usize) -> Self {
+        let d = dom(sim);
+        let nb = nonbottom_start(sim);
+        let inits = (0..n)
+            .map(|_| if nb && !sim.flip("bot", 1, 3) { WithBot::new(Some(SetUnion::new(subset(mask(sim, d), d).into_iter().collect()))) } else { WithBot::new(None) })
+            .collect();
+        WithBotGen { d, inits }
     }
-    fn init(&self, _i: usize) -> WbSt {
-        Default::default()
+    fn init(&self, i: usize) -> WbSt {
+        self.inits[i].clone()
     }
     fn delta(&mut self, sim: &mut Sim, _i: usize, _st: &WbSt) -> WbMsg {
         let d = self.d;
@@ -494,16 +531,30 @@ pub enum WtMsg {
 }
 pub struct WithTopGen {
     d: u8,
+    inits: Vec<WtSt>,
 }
 impl LatticeGen for WithTopGen {
     const NAME: &'static str = "with_top";
     type State = WtSt;
     type Msg = WtMsg;
-    fn new(sim: &mut Sim, _n: usize) -> Self {
-        WithTopGen { d: dom(sim) }
+    fn new(sim: &mut Sim, n: usize) -> Self {
+        let d = dom(sim);
+        let nb = nonbottom_start(sim);
+        let inits = (0..n)
+            .map(|_| {
+                if !nb {
+                    Default::default()
+                } else if sim.flip("top", 1, 12) {
+                    WithTop::new(None)
+                } else {
+                    WithTop::new(Some(SetUnion::new(subset(mask(sim, d), d).into_iter().collect())))
+                }
+            })
+            .collect();
+        WithTopGen { d, inits }
     }
-    fn init(&self, _i: usize) -> WtSt {
-        Default::default()
+    fn init(&self, i: usize) -> WtSt {
+        self.inits[i].clone()
     }
     fn delta(&mut self, sim: &mut Sim, _i: usize, _st: &WtSt) -> WtMsg {
         let d = self.d;
@@ -545,16 +596,30 @@ pub enum PairMsg {
 }
 pub struct PairGen {
     d: u8,
+    inits: Vec<PairSt>,
 }
 impl LatticeGen for PairGen {
     const NAME: &'static str = "pair";
     type State = PairSt;
     type Msg = PairMsg;
-    fn new(sim: &mut Sim, _n: usize) -> Self {
-        PairGen { d: dom(sim) }
+    fn new(sim: &mut Sim, n: usize) -> Self {
+        let d = dom(sim);
+        let nb = nonbottom_start(sim);
+        let inits = (0..n)
+            .map(|_| {
+                if !nb {
+                    return Default::default();
+                }
+                let a = SetUnion::new(subset(mask(sim, d), d).into_iter().collect());
+                let ks = subset(mask(sim, d), d);
+                let b = MapUnion::new(ks.into_iter().map(|k| (k, Max::new(sim.choose("val", 0, 3) as u8))).collect::<BTreeMap<_, _>>());
+                Pair::new(a, b)
+            })
+            .collect();
+        PairGen { d, inits }
     }
-    fn init(&self, _i: usize) -> PairSt {
-        Default::default()
+    fn init(&self, i: usize) -> PairSt {
+        self.inits[i].clone()
     }
     fn delta(&mut self, sim: &mut Sim, _i: usize, _st: &PairSt) -> PairMsg {
         let d = self.d;
@@ -601,16 +666,27 @@ pub enum DomMsg {
 }
 pub struct DomPairGen {
     d: u8,
+    inits: Vec<DomSt>,
 }
 impl LatticeGen for DomPairGen {
     const NAME: &'static str = "dom_pair";
     type State = DomSt;
     type Msg = DomMsg;
-    fn new(sim: &mut Sim, _n: usize) -> Self {
-        DomPairGen { d: dom(sim) }
+    fn new(sim: &mut Sim, n: usize) -> Self {
+        let d = dom(sim);
+        let nb = nonbottom_start(sim);
+        let inits = (0..n)
+            .map(|_| {
+                if !nb {
+                    return Default::default();
+                }
+                DomPair::new(Max::new(sim.choose("key", 0, 2) as u8), SetUnion::new(subset(mask(sim, d), d).into_iter().collect()))
+            })
+            .collect();
+        DomPairGen { d, inits }
     }
-    fn init(&self, _i: usize) -> DomSt {
-        Default::default()
+    fn init(&self, i: usize) -> DomSt {
+        self.inits[i].clone()
     }
     fn delta(&mut self, sim: &mut Sim, _i: usize, st: &DomSt) -> DomMsg {
         let d = self.d;
@@ -658,16 +734,25 @@ pub enum VuMsg {
 }
 pub struct VecUnionGen {
     d: u8,
+    inits: Vec<VuSt>,
 }
 impl LatticeGen for VecUnionGen {
     const NAME: &'static str = "vec_union";
     type State = VuSt;
     type Msg = VuMsg;
-    fn new(sim: &mut Sim, _n: usize) -> Self {
-        VecUnionGen { d: dom(sim) }
+    fn new(sim: &mut Sim, n: usize) -> Self {
+        let d = dom(sim);
+        let nb = nonbottom_start(sim);
+        let inits = (0..n)
+            .map(|_| {
+                let len = if nb { sim.choose("len", 0, 3) as usize } else { 0 };
+                VecUnion::new((0..len).map(|_| SetUnion::new(subset(mask(sim, d), d).into_iter().collect())).collect())
+            })
+            .collect();
+        VecUnionGen { d, inits }
     }
-    fn init(&self, _i: usize) -> VuSt {
-        Default::default()
+    fn init(&self, i: usize) -> VuSt {
+        self.inits[i].clone()
     }
     fn delta(&mut self, sim: &mut Sim, _i: usize, _st: &VuSt) -> VuMsg {
         let d = self.d;
@@ -729,16 +814,31 @@ pub enum DvMsg {
 }
 pub struct DerivedGen {
     d: u8,
+    inits: Vec<DvSt>,
 }
 impl LatticeGen for DerivedGen {
     const NAME: &'static str = "derived_struct";
     type State = DvSt;
     type Msg = DvMsg;
-    fn new(sim: &mut Sim, _n: usize) -> Self {
-        DerivedGen { d: dom(sim) }
+    fn new(sim: &mut Sim, n: usize) -> Self {
+        let d = dom(sim);
+        let nb = nonbottom_start(sim);
+        let inits = (0..n)
+            .map(|_| {
+                if !nb {
+                    return Derived { keys: Default::default(), epoch: Default::default(), low: Default::default() };
+                }
+                let keys = SetUnion::new(subset(mask(sim, d), d).into_iter().collect());
+                let epoch = Max::new(sim.choose("epoch", 0, 3) as u8);
+                let ks = subset(mask(sim, d), d);
+                let low = MapUnion::new(ks.into_iter().map(|k| (k, Min::<u8>::from_code(sim.choose("val", 0, 3) as u8))).collect::<BTreeMap<_, _>>());
+                Derived { keys, epoch, low }
+            })
+            .collect();
+        DerivedGen { d, inits }
     }
-    fn init(&self, _i: usize) -> DvSt {
-        Derived { keys: Default::default(), epoch: Default::default(), low: Default::default() }
+    fn init(&self, i: usize) -> DvSt {
+        self.inits[i].clone()
     }
     fn delta(&mut self, sim: &mut Sim, _i: usize, st: &DvSt) -> DvMsg {
         let d = self.d;
@@ -783,17 +883,29 @@ pub enum DtMsg {
 pub struct DerivedTupleGen {
     d: u8,
     tag: u8,
+    inits: Vec<DtSt>,
 }
 impl LatticeGen for DerivedTupleGen {
     const NAME: &'static str = "derived_tuple";
     type State = DtSt;
     type Msg = DtMsg;
-    fn new(sim: &mut Sim, _n: usize) -> Self {
+    fn new(sim: &mut Sim, n: usize) -> Self {
         let d = dom(sim);
-        DerivedTupleGen { d, tag: item(sim, d) }
+        let tag = item(sim, d);
+        let nb = nonbottom_start(sim);
+        let inits = (0..n)
+            .map(|_| {
+                if !nb {
+                    return DerivedTuple(Default::default(), Default::default(), Conflict::new(Some(tag)));
+                }
+                let a = if sim.flip("bot", 1, 3) { WithBot::new(None) } else { WithBot::new(Some(SetUnion::new(subset(mask(sim, d), d).into_iter().collect()))) };
+                DerivedTuple(a, Min::<u8>::from_code(sim.choose("val", 0, 3) as u8), Conflict::new(Some(tag)))
+            })
+            .collect();
+        DerivedTupleGen { d, tag, inits }
     }
-    fn init(&self, _i: usize) -> DtSt {
-        DerivedTuple(Default::default(), Default::default(), Conflict::new(Some(self.tag)))
+    fn init(&self, i: usize) -> DtSt {
+        self.inits[i].clone()
     }
     fn delta(&mut self, sim: &mut Sim, _i: usize, _st: &DtSt) -> DtMsg {
         let d = self.d;
@@ -847,7 +959,7 @@ pub enum UfMsg {
 }
 pub struct UnionFindGen {
     d: u8,
-    carriers: Vec<u64>,
+    inits: Vec<UfSt>,
 }
 const UF_DOM: u8 = 5;
 /// canonical text of the partition: for every element the smallest element of its class
@@ -868,11 +980,30 @@ impl LatticeGen for UnionFindGen {
     type Msg = UfMsg;
     fn new(sim: &mut Sim, n: usize) -> Self {
         let d = sim.choose("domain", 3, UF_DOM as u64) as u8;
-        let carriers = (0..n).map(|_| sim.choose("carrier", 0, 1)).collect();
-        UnionFindGen { d, carriers }
+        let nb = nonbottom_start(sim);
+        let inits = (0..n)
+            .map(|_| {
+                // start values are built through the public `union` API
+                let unions = if nb { sim.choose("unions", 0, 2) } else { 0 };
+                if sim.choose("carrier", 0, 1) == 0 {
+                    let mut u = UnionFindHashMap::<u8>::default();
+                    for _ in 0..unions {
+                        u.union(item(sim, d), item(sim, d));
+                    }
+                    UfSt::H(u)
+                } else {
+                    let mut u = UnionFindBTreeMap::<u8>::default();
+                    for _ in 0..unions {
+                        u.union(item(sim, d), item(sim, d));
+                    }
+                    UfSt::B(u)
+                }
+            })
+            .collect();
+        UnionFindGen { d, inits }
     }
     fn init(&self, i: usize) -> UfSt {
-        if self.carriers[i] == 0 { UfSt::H(Default::default()) } else { UfSt::B(Default::default()) }
+        self.inits[i].clone()
     }
     fn delta(&mut self, sim: &mut Sim, _i: usize, _st: &UfSt) -> UfMsg {
         let d = self.d;
